@@ -169,6 +169,11 @@ def jobs(tier):
             functions=[fn_id(CountVectorizer._get_feature_counts), fn_id(CountVectorizer._build_vocabulary), fn_id(CountVectorizer._create_feature_matrix), fn_id(CountVectorizer.fit_transform), fn_id(CountVectorizer.transform)], site="CountVectorizer"),
         Job("C16.SCORE", HP, "ob_score_finite", timeout=600, bounds="score = log-odds + log(covered/len), final = log-odds + 1000 log(len(prod)/len): 4 texts, every span (case split), symbolic model outputs",
             functions=[fn_id(NS.NaiveBayesScorer.score), fn_id(NS.NaiveBayesScorer.score_final)], stubs=["math.log stub recording its argument", "model stub"], site="NaiveBayesScorer"),
+        Job("C16.SCORE-HIST", HP, "ob_score_hist", timeout=600, bounds="three consecutive scorings on one scorer object, traces that are permutations of each other, model outputs symbolic: each score is the formula on its own trace",
+            functions=[fn_id(NS.NaiveBayesScorer.score), fn_id(NS.NaiveBayesScorer.score_final)], stubs=["math.log stub", "order-sensitive model stub"], site="NaiveBayesScorer"),
+        Job("C16.FIT-REFERENCE", HN, "ob_fit", timeout=3600, path_timeout=120, env={"VQ_NDOCS": "3" if tier == "quick" else "4"},
+            bounds="training sets of 2..{} documents from 6 token sequences over 2 symbols, every labelling with both classes: train_naive_bayes + predict_log_proba = textbook Laplace NB over 1-3-grams (1e-9), finite, normalised".format(3 if tier == "quick" else 4),
+            functions=[fn_id(NS.train_naive_bayes), fn_id(NS.CTParsePipeline.fit), fn_id(NS.CTParsePipeline.predict_log_proba)], stubs=["code untraced; corpus indices and labels symbolic"], site="train_naive_bayes"),
         Job("C16.MODEL-FRAME", HP, "ob_model_frame", timeout=600, bounds="toy pipeline, documents 0..4 tokens: repeatable, finite, normalised predictions (float arithmetic, concrete per path)",
             functions=[fn_id(NS.CTParsePipeline.predict_log_proba)], site="pipeline"),
     ]
